@@ -1,5 +1,5 @@
 from ..driver import Prop, Suite
-from .. import resgen
+from .. import resgen, unigen
 
 class C08(Prop):
     pid = "C08"; prop_file = "C08.v"
@@ -18,11 +18,21 @@ class C08(Prop):
         n = 300 if tier == "quick" else 5000
         F10 = resgen.mk_case(8, 4294967295, [[("res", [0, 100]), ("cres", [0]), ("pub", [900])]], [0] * 30, {"profile": "corpus"})
         return [Suite("sequential", resgen.HEADER, [F10] + [resgen.gen_history(rng, False) for _ in range(n)]),
-                Suite("concurrent", resgen.HEADER, [resgen.gen_history(rng, True) for _ in range(n)])]
-    def oracle(self, case, recs): return resgen.oracle(case, recs)
-    def nontrivial(self, case, recs): return resgen.nontrivial(case, recs)
+                Suite("concurrent", resgen.HEADER, [resgen.gen_history(rng, True) for _ in range(n)]),
+                # the channel wrappers: reserve_slot / try_send_reserved / try_cancel_slot_reserve of the movable atomic Uni channel in lock-step
+                # (Chan/ChanX.v), of the two zero-copy Uni channels through the same scheduler (oracle only)
+                Suite("uni_move_atomic_entry_points", unigen.XHEADER, [unigen.gen_entry_case(rng, "move_atomic", async_ok=False) for _ in range(n // 2)]),
+                Suite("uni_zc_atomic(oracle only)", unigen.HEADER, [unigen.gen_entry_case(rng, "zc_atomic", async_ok=False) for _ in range(n // 3)], compare=False),
+                Suite("uni_zc_full_sync(oracle only)", unigen.HEADER, [unigen.gen_entry_case(rng, "zc_full_sync", async_ok=False) for _ in range(n // 3)], compare=False)]
+    def oracle(self, case, recs):
+        if "chan" in case.meta: return unigen.uni_oracle_exactly_once(case, recs) + unigen.uni_oracle_no_leak(case, recs)
+        return resgen.oracle(case, recs)
+    def nontrivial(self, case, recs):
+        if "chan" in case.meta: return any(r[0] == "ret" and r[2] == 27 for r in recs) and any(r[0] == "ret" and r[2] in (24, 13) for r in recs)
+        return resgen.nontrivial(case, recs)
     def parse_replay(self, text):
         lines = [l for l in text.splitlines() if l.strip() and not l.startswith("#")]
-        cases = [resgen.parse_case_line(l) for l in lines]
-        for c in cases: c.meta["profile"] = "sequential" if len(c.meta["progs"]) == 1 else "concurrent"
-        return Suite("replay", resgen.HEADER, cases)
+        cases = [unigen.parse_case_line(l) if l.startswith("uni ") else resgen.parse_case_line(l) for l in lines]
+        for c in cases:
+            if "chan" not in c.meta: c.meta["profile"] = "sequential" if len(c.meta["progs"]) == 1 else "concurrent"
+        return Suite("replay", unigen.XHEADER + "\n" + resgen.HEADER, cases, compare=all(c.coq is not None for c in cases))
